@@ -42,5 +42,13 @@ for meta_path in sorted(glob.glob(os.path.join(HERE, "seeded", "*", "meta.json")
     finally:
         subprocess.run(["git", "-C", "/repo", "worktree", "remove", "--force", wt])
         shutil.rmtree(wt, ignore_errors=True)
-    json.dump(results, open(res_path, "w"), indent=1, sort_keys=True)
+    # several streams may run side by side: re-read under a lock, update only this entry
+    import fcntl
+    with open(res_path + ".lock", "w") as lk:
+        fcntl.flock(lk, fcntl.LOCK_EX)
+        cur = json.load(open(res_path)) if os.path.exists(res_path) else {}
+        if sid in results:
+            cur[sid] = results[sid]
+        json.dump(cur, open(res_path, "w"), indent=1, sort_keys=True)
+        results = cur
 print("detected", sum(1 for v in results.values() if v.get("detected")), "of", len(results))
